@@ -139,6 +139,10 @@ func init() {
 	// vDepthReset / vDepthMax: interpreter call-stack depth relative to the caller (C16)
 	h["vDepthReset"] = func(fr *frame, args []value) value { cur.maxDepth = fr.depth; cur.depthBase = fr.depth; return nil }
 	h["vDepthMax"] = func(fr *frame, args []value) value { return cur.maxDepth - cur.depthBase }
+	h["vThread"] = func(fr *frame, args []value) value {
+		cur.thread = int(asInt64(args[0]))
+		return nil
+	}
 	h["vSymbolic"] = func(fr *frame, args []value) value { return true }
 	h["vNote"] = func(fr *frame, args []value) value {
 		cur.notes = append(cur.notes, args[0].(string)+"="+toString(args[1]))
@@ -239,6 +243,9 @@ func init() {
 			if items := cur.pools[p]; len(items) > 0 {
 				it := items[len(items)-1]
 				cur.pools[p] = items[:len(items)-1]
+				if cur.alog != nil {
+					cur.own(it, 0) // exclusive between Get and Put (sync.Pool's contract)
+				}
 				return it
 			}
 			st := (*p).(structure)
@@ -246,7 +253,11 @@ func init() {
 			if f, ok := newFn.(*ssa.Function); ok && f == nil {
 				return iface{}
 			}
-			return call(fr.i, fr, 0, newFn, nil)
+			it := call(fr.i, fr, 0, newFn, nil)
+			if cur.alog != nil {
+				cur.own(it, 0)
+			}
+			return it
 		},
 		"(*sync.Pool).Put": func(fr *frame, args []value) value {
 			p := args[0].(*value)
